@@ -75,6 +75,10 @@ theorem backup_creates (tcs : List String) : ∀ (fs : FS) (f : String) (b : Byt
           simp [hn, List.lookup, hne]
       · exact ih fs f b hfr hb hn
 
+/-- the model's guard (`lookupFS fs (f ++ ".orig") = none`) is the code's: the backup is written only if `X.orig` does not exist
+    (read off `backup_test_cases` on every run; an "exists but empty" exception, say, makes this false) -/
+theorem shipped_backup_guard : Gen.backupOnlyIfMissing = true := by decide
+
 /-- whenever a pass completes the modes of the test cases are the original ones, whatever happened to them during the
     pass (`Gen.restoreModeAtPassEnd` is read off `run_pass` on every run) -/
 theorem modes_back_when_pass_completes (orig : List Nat) (steps : List (List Nat → List Nat)) :
